@@ -376,7 +376,8 @@ impl Query {
     pub fn act_kill_line(&mut self) {
         let (_, after) = self.get_query_ref();
         let after = std::mem::take(after);
-        self.save_yank(after, false);
+        // `after` is stored reversed, so restore reading order for the kill buffer
+        self.save_yank(after, true);
     }
 
     pub fn act_line_discard(&mut self) {
